@@ -49,12 +49,24 @@ def rank_of(x):
     return r
 
 
+# elements for which FIXED(key) is true keep a concrete (sorted-by-key) order:
+# lets a harness make one universe symbolic at a time
+FIXED = {"pred": None}
+
+
 def less(a, b):
     """Symbolic comparison of ranks (forks).  Ranks of different elements
     are distinct."""
     ka, kb = elem_key(a), elem_key(b)
     if ka == kb:
         return False
+    f = FIXED["pred"]
+    if f is not None:
+        fa, fb = f(ka), f(kb)
+        if fa and fb:
+            return ka < kb
+        if fa != fb:
+            return fa      # fixed elements first
     ra, rb = rank_of(a), rank_of(b)
     ex = symx.cur()
     pair = (min(ka, kb), max(ka, kb))
@@ -78,6 +90,9 @@ def ordered(items):
 
 
 class RankedFS(_fs):
+    def __new__(cls, it=()):
+        return _fs.__new__(cls, _raw(it))
+
     def __iter__(self):
         return iter(ordered(_fs.__iter__(self)))
 
@@ -95,8 +110,23 @@ class RankedFS(_fs):
 
 
 class RankedSet(_s):
+    def __init__(self, it=()):
+        _s.__init__(self, _raw(it))
+
     def __iter__(self):
         return iter(ordered(_s.__iter__(self)))
+
+    def update(self, *others):
+        for o in others:
+            _s.update(self, _raw(o))
+
+    def __ior__(self, o):
+        _s.update(self, _raw(o))
+        return self
+
+    def __isub__(self, o):
+        _s.difference_update(self, _raw(o))
+        return self
 
     def __or__(self, o): return RankedSet(_s.__or__(self, o))
     def __ror__(self, o): return RankedSet(_s.__or__(self, o))
@@ -124,28 +154,48 @@ DAGRT_MODULES = ["dagrt.language", "dagrt.utils", "dagrt.data", "dagrt.expressio
                  "dagrt.transform", "dagrt.function_registry"]
 
 
+def _raw(x):
+    """Elements of a (possibly ranked) container without consulting ranks."""
+    if isinstance(x, RankedFS):
+        return list(_fs.__iter__(x))
+    if isinstance(x, RankedSet):
+        return list(_s.__iter__(x))
+    return x
+
+
+def order_free_sorted(x, *a, **k):
+    """sorted(): its result does not depend on the iteration order of its
+    argument, so a ranked argument is read without forking."""
+    return builtins.sorted(_raw(x), *a, **k)
+
+
 class installed:
-    """Context manager: rebind the names `frozenset` and `set` in the module
-    globals of dagrt so that sets constructed inside dagrt are ranked too."""
+    """Context manager: rebind the names `frozenset`, `set` (ranked) and
+    `sorted` / `natsorted` (order-free readers) in the module globals of dagrt
+    so that sets constructed inside dagrt are ranked too."""
+
+    NAMES = ("frozenset", "set", "sorted", "natsorted")
 
     def __enter__(self):
         import importlib
         self.saved = []
         for mn in DAGRT_MODULES:
             m = importlib.import_module(mn)
-            self.saved.append((m, m.__dict__.get("frozenset", None), m.__dict__.get("set", None)))
+            self.saved.append((m, {n: m.__dict__.get(n, None) for n in self.NAMES}))
             m.frozenset = RankedFS
             m.set = RankedSet
+            m.sorted = order_free_sorted
+            if "natsorted" in m.__dict__:
+                orig = m.__dict__["natsorted"]
+                m.natsorted = (lambda orig: lambda x, *a, **k: orig(_raw(x), *a, **k))(orig)
         return self
 
     def __exit__(self, *a):
-        for m, f, s in self.saved:
-            if f is None:
-                del m.frozenset
-            else:
-                m.frozenset = f
-            if s is None:
-                del m.set
-            else:
-                m.set = s
+        for m, old in self.saved:
+            for n, v in old.items():
+                if v is None:
+                    if n in m.__dict__:
+                        del m.__dict__[n]
+                else:
+                    setattr(m, n, v)
         return False
